@@ -59,7 +59,8 @@ __all__ = [
     # instructions
     'OPCODES', 'MNEMONICS', 'FORMAT_UNITS', 'REF_KIND', 'ins', 'encode_format', 'ins_units',
     'packed_switch_payload', 'sparse_switch_payload', 'fill_array_data_payload',
-    'assemble', 'Offsets',
+    'assemble', 'Offsets', 'decode_format', 'sweep',
+    'StringRef', 'TypeRef', 'FieldRef', 'MethodRef', 'ProtoRef',
     # file model
     'Field', 'Method', 'Code', 'Try', 'Annotation', 'ClassDef', 'DexBuilder',
     'fix_checksum', 'debug_info_item', 'shorty', 'NO_INDEX',
@@ -904,6 +905,157 @@ def assemble(items, base: int = 0):
     return bytes(out), res
 
 
+# ---- independent decoder (for oracles) -----------------------------------------------------
+
+def _sx(v, bits):
+    return v - (1 << bits) if v & (1 << (bits - 1)) else v
+
+
+def decode_format(fmt: str, units) -> list:
+    """Inverse of :func:`encode_format`: the fields (spec letter order, signed fields
+    sign-extended) of one instruction given as a sequence of 16-bit code units.  The opcode
+    byte is ``units[0] & 0xff``; the ØØ byte of 10x/20t/30t/32x is ignored."""
+    u = units
+    hi = u[0] >> 8
+    if fmt == '10x':
+        return []
+    if fmt == '12x':
+        return [hi & 0xF, hi >> 4]
+    if fmt == '11n':
+        return [hi & 0xF, _sx(hi >> 4, 4)]
+    if fmt == '11x':
+        return [hi]
+    if fmt == '10t':
+        return [_sx(hi, 8)]
+    if fmt == '20t':
+        return [_sx(u[1], 16)]
+    if fmt in ('20bc', '22x', '21c'):
+        return [hi, u[1]]
+    if fmt in ('21t', '21s', '21h'):
+        return [hi, _sx(u[1], 16)]
+    if fmt == '23x':
+        return [hi, u[1] & 0xFF, u[1] >> 8]
+    if fmt == '22b':
+        return [hi, u[1] & 0xFF, _sx(u[1] >> 8, 8)]
+    if fmt in ('22t', '22s'):
+        return [hi & 0xF, hi >> 4, _sx(u[1], 16)]
+    if fmt in ('22c', '22cs'):
+        return [hi & 0xF, hi >> 4, u[1]]
+    if fmt == '30t':
+        return [_sx(u[1] | u[2] << 16, 32)]
+    if fmt == '32x':
+        return [u[1], u[2]]
+    if fmt in ('31i', '31t'):
+        return [hi, _sx(u[1] | u[2] << 16, 32)]
+    if fmt == '31c':
+        return [hi, u[1] | u[2] << 16]
+    if fmt in ('35c', '35ms', '35mi', '45cc'):
+        f = [hi >> 4, u[1], u[2] & 0xF, (u[2] >> 4) & 0xF, (u[2] >> 8) & 0xF, u[2] >> 12, hi & 0xF]
+        return f + [u[3]] if fmt == '45cc' else f
+    if fmt in ('3rc', '3rms', '3rmi', '4rcc'):
+        f = [hi, u[1], u[2]]
+        return f + [u[3]] if fmt == '4rcc' else f
+    if fmt == '51l':
+        return [hi, _sx(u[1] | u[2] << 16 | u[3] << 32 | u[4] << 48, 64)]
+    raise ValueError('unknown format %r' % (fmt,))
+
+
+def sweep(insns: bytes):
+    """Linear sweep over an instruction stream, straight from the specification.  Yields
+    ``(addr_units, mnemonic, fmt, fields, raw_bytes)``.  Payload pseudo-instructions (units
+    0x0100 / 0x0200 / 0x0300) are yielded with mnemonic ``'packed-switch-payload'`` /
+    ``'sparse-switch-payload'`` / ``'fill-array-data-payload'``, fmt ``'payload'`` and fields
+    ``[first_key, targets]`` / ``[keys, targets]`` / ``[element_width, size, data_bytes]``.
+    Raises ValueError on a truncated instruction.  Unused opcodes are reported as
+    ``unused-XX`` (10x); it is up to the caller to treat them as invalid."""
+    n = len(insns) // 2
+    u = struct.unpack('<%dH' % n, insns[:2 * n])
+    i = 0
+    while i < n:
+        w = u[i]
+        if w in (0x0100, 0x0200, 0x0300):
+            if i + 2 > n:
+                raise ValueError('truncated payload at %d' % i)
+            size = u[i + 1]
+            if w == 0x0100:
+                ln = 4 + 2 * size
+                name = 'packed-switch-payload'
+            elif w == 0x0200:
+                ln = 2 + 4 * size
+                name = 'sparse-switch-payload'
+            else:
+                if i + 4 > n:
+                    raise ValueError('truncated payload at %d' % i)
+                cnt = u[i + 2] | u[i + 3] << 16
+                ln = 4 + (size * cnt + 1) // 2
+                name = 'fill-array-data-payload'
+            if i + ln > n:
+                raise ValueError('truncated payload at %d' % i)
+            raw = insns[2 * i:2 * (i + ln)]
+            if w == 0x0100:
+                ints = struct.unpack('<%di' % (1 + size), raw[4:])
+                fields = [ints[0], list(ints[1:])]
+            elif w == 0x0200:
+                ints = struct.unpack('<%di' % (2 * size), raw[4:])
+                fields = [list(ints[:size]), list(ints[size:])]
+            else:
+                fields = [size, cnt, raw[8:8 + size * cnt]]
+            yield i, name, 'payload', fields, raw
+            i += ln
+            continue
+        name, fmt = OPCODES[w & 0xFF]
+        ln = FORMAT_UNITS[fmt]
+        if i + ln > n:
+            raise ValueError('truncated instruction at %d' % i)
+        yield i, name, fmt, decode_format(fmt, u[i:i + ln]), insns[2 * i:2 * (i + ln)]
+        i += ln
+
+
+# ---- symbolic pool references (resolved by a DexBuilder) -------------------------------------
+
+class _Ref:
+    __slots__ = ('key',)
+
+    def __repr__(self):
+        return '%s%r' % (type(self).__name__, self.key)
+
+    def __eq__(self, o):
+        return type(o) is type(self) and o.key == self.key
+
+    def __hash__(self):
+        return hash((type(self).__name__, self.key))
+
+
+class StringRef(_Ref):
+    """``StringRef('text')`` -- symbolic string_ids index inside an instruction item list"""
+    def __init__(self, s):
+        self.key = norm_str(s)
+
+
+class TypeRef(_Ref):
+    """``TypeRef('Lfoo/Bar;')`` -- symbolic type_ids index"""
+    def __init__(self, t):
+        self.key = norm_str(t)
+
+
+class FieldRef(_Ref):
+    """``FieldRef(cls, name, type)`` -- symbolic field_ids index"""
+    def __init__(self, cls, name, type):
+        self.key = (norm_str(cls), norm_str(name), norm_str(type))
+
+
+class MethodRef(_Ref):
+    """``MethodRef(cls, name, ret, params)`` -- symbolic method_ids index"""
+    def __init__(self, cls, name, ret, params=()):
+        self.key = (norm_str(cls), norm_str(name), norm_str(ret), tuple(norm_str(p) for p in params))
+
+
+class ProtoRef(_Ref):
+    """``ProtoRef(ret, params)`` -- symbolic proto_ids index"""
+    def __init__(self, ret, params=()):
+        self.key = (norm_str(ret), tuple(norm_str(p) for p in params))
+
+
 # ----------------------------------------------------------------------------------------
 # File model
 # ----------------------------------------------------------------------------------------
@@ -983,8 +1135,17 @@ class Method(_Rec):
 class Code(_Rec):
     """Code(registers, ins, outs, insns, tries=(), debug_info=None).
 
-    ``insns`` is bytes (even length) or a callable ``f(builder) -> bytes`` that is evaluated
-    after ``freeze()`` so that it can ask the builder for pool indices.  ``tries`` is a
+    ``insns`` is one of
+
+    * bytes (even length);
+    * a list of :func:`assemble` items, in which index operands may be symbolic
+      (``StringRef('x')``, ``TypeRef``, ``FieldRef``, ``MethodRef``, ``ProtoRef``): they are
+      interned at ``freeze()`` and resolved at ``build()``; the labels are then available as
+      ``builder.code_labels[method_ref]`` and may be used in ``tries`` (``Try('from', 'to',
+      [(type, 'handler')], 'catchall')`` -- a str ``count_units`` is the exclusive end label);
+    * a callable ``f(builder) -> bytes or item list`` that is evaluated after ``freeze()`` so
+      that it can ask the builder for pool indices (symbolic refs in its result must already
+      be in the pools, e.g. via ``extra_*``).  ``tries`` is a
     sequence of :class:`Try` (written in the given order; the spec wants them sorted by
     address and non-overlapping, which is not enforced) or a callable ``f(builder) -> tries``
     evaluated right after ``insns``.  ``debug_info`` is None (debug_info_off = 0) or the raw
@@ -1073,8 +1234,9 @@ class DexBuilder:
     of EncodedValue-like; index = position).
 
     After ``build()``: ``layout`` (dict, see :meth:`build`), ``map_items`` (list of
-    (type, size, offset) as written), ``code_bytes`` ({method ref: insns bytes}) and
-    ``code_tries`` ({method ref: list of Try}).
+    (type, size, offset) as written), ``code_bytes`` ({method ref: insns bytes}),
+    ``code_tries`` ({method ref: list of Try, labels resolved}), ``code_debug`` and
+    ``code_labels`` ({method ref: Offsets} for code given as item lists).
     """
 
     def __init__(self):
@@ -1092,6 +1254,7 @@ class DexBuilder:
         self.code_bytes = {}
         self.code_tries = {}
         self.code_debug = {}
+        self.code_labels = {}
 
     # ---- model -------------------------------------------------------------------------
 
@@ -1231,6 +1394,20 @@ class DexBuilder:
                 self._collect_value(v, S, T, P, F, M)
             for m in c.direct_methods + c.virtual_methods:
                 M.add((c.name, m.name, m.ret, m.params))
+                if m.code is not None and isinstance(m.code.insns, (list, tuple)):
+                    for it in m.code.insns:
+                        if isinstance(it, tuple):
+                            for x in it:
+                                if isinstance(x, StringRef):
+                                    S.add(x.key)
+                                elif isinstance(x, TypeRef):
+                                    T.add(x.key)
+                                elif isinstance(x, FieldRef):
+                                    F.add(x.key)
+                                elif isinstance(x, MethodRef):
+                                    M.add(x.key)
+                                elif isinstance(x, ProtoRef):
+                                    P.add(x.key)
                 if m.code is not None and not callable(m.code.tries):
                     for t in m.code.tries:
                         for ty, _ in t.handlers:
@@ -1323,6 +1500,35 @@ class DexBuilder:
         if vt == VALUE_METHOD_TYPE:
             return self.proto_idx(*v)
         raise ValueError('cannot resolve %r for %s' % (v, VALUE_NAMES.get(vt, vt)))
+
+    def ref_idx(self, r) -> int:
+        """index of a StringRef / TypeRef / FieldRef / MethodRef / ProtoRef"""
+        self._need_frozen()
+        table = {StringRef: self._sidx, TypeRef: self._tidx, FieldRef: self._fidx,
+                 MethodRef: self._midx, ProtoRef: self._pidx}[type(r)]
+        return table[r.key]
+
+    def resolve_items(self, items) -> list:
+        """replace symbolic refs in a list of :func:`assemble` items by pool indices"""
+        out = []
+        for it in items:
+            if isinstance(it, tuple):
+                it = tuple(self.ref_idx(x) if isinstance(x, _Ref) else x for x in it)
+            out.append(it)
+        return out
+
+    @staticmethod
+    def _resolve_try(t, labels):
+        def lab(x):
+            if isinstance(x, str):
+                if labels is None or x not in labels:
+                    raise ValueError('unknown label %r in Try' % (x,))
+                return labels[x]
+            return x
+        start = lab(t.start_units)
+        count = lab(t.count_units) - start if isinstance(t.count_units, str) else t.count_units
+        return Try(start, count, [(ty, lab(ad)) for ty, ad in t.handlers],
+                   None if t.catch_all is None else lab(t.catch_all))
 
     def encode_value(self, item, leb_pad=0) -> bytes:
         """encode an EncodedValue-like tuple, resolving symbolic references"""
@@ -1451,12 +1657,16 @@ class DexBuilder:
                 if ref in self.code_bytes:
                     continue
                 insns = m.code.insns(self) if callable(m.code.insns) else m.code.insns
+                labels = None
+                if isinstance(insns, (list, tuple)):
+                    insns, labels = assemble(self.resolve_items(insns))
+                    self.code_labels[ref] = labels
                 insns = bytes(insns)
                 if len(insns) & 1:
                     raise ValueError('insns of %r has odd length' % (ref,))
                 tries = m.code.tries(self) if callable(m.code.tries) else m.code.tries
                 self.code_bytes[ref] = insns
-                self.code_tries[ref] = list(tries)
+                self.code_tries[ref] = [self._resolve_try(t, labels) for t in tries]
                 dbg = m.code.debug_info
                 if callable(dbg):
                     dbg = dbg(self)
